@@ -150,7 +150,7 @@ func (m *Agreement) AfterStep(c *sim.Cluster) []ev.Violation {
 				m.canonBy[idx] = n.Idx
 			} else if prev != dg {
 				out = append(out, ev.Violation{Property: m.PropID, Key: fmt.Sprintf("block-mismatch"),
-					What: fmt.Sprintf("node %d delivered block %d = %s but node %d delivered %s", n.Idx, idx, describe(d), m.canonBy[idx], m.canonDesc[idx]),
+					What:   fmt.Sprintf("node %d delivered block %d = %s but node %d delivered %s", n.Idx, idx, describe(d), m.canonBy[idx], m.canonDesc[idx]),
 					Replay: replay(c, map[string]interface{}{"node": n.Idx, "block": idx})})
 			}
 			// non-triviality: another node already delivered idx while holding a different event set
@@ -182,7 +182,7 @@ func (m *Agreement) AfterStep(c *sim.Cluster) []ev.Violation {
 			}
 			if got := digest(deliveredOfBody(b.Body)); got != want {
 				out = append(out, ev.Violation{Property: m.PropID, Key: "store-block-mismatch",
-					What: fmt.Sprintf("node %d Store.GetBlock(%d) = %s differs from the delivered block %s", n.Idx, idx, describe(deliveredOfBody(b.Body)), m.canonDesc[idx]),
+					What:   fmt.Sprintf("node %d Store.GetBlock(%d) = %s differs from the delivered block %s", n.Idx, idx, describe(deliveredOfBody(b.Body)), m.canonDesc[idx]),
 					Replay: replay(c, map[string]interface{}{"node": n.Idx, "block": idx})})
 			}
 		}
@@ -212,7 +212,7 @@ type Finality struct {
 	Reads     int
 }
 
-func NewFinality() *Finality { return &Finality{nodes: map[int]*nodeFinal{}} }
+func NewFinality() *Finality   { return &Finality{nodes: map[int]*nodeFinal{}} }
 func (m *Finality) ID() string { return "C02" }
 
 func (m *Finality) AfterStep(c *sim.Cluster) []ev.Violation {
